@@ -7,7 +7,7 @@ import QtVerif.Model.Core
   boot                                           State.init (forceAll set, as `main.init()` does)
   src <i> <v> | api <i> <v> | en <i> | dis <i> | expr <i> <prefix tokens…> | clr <i>     external actions
   act <name> [<i>]                               one internal action (pb-anon, pb-writer i, pb-evaler i, read, skip, ha, hb,
-                                                 take i, cmp i, wb i, we i)
+                                                 take i, cmp i, wb i, we i, hook i)
   settle <fuel>                                  canonical fair schedule until quiescent and stable
   state                                          `ok <quiescent 0|1> | <en>:<lastRead>:<reg>:<class> …`
   evalv <i> <c0> … <c(n-1)> <prefix tokens…>     evaluate an expression as port i would, over the given cells (dis | na | int)
@@ -43,6 +43,7 @@ def op2? : String → Option Op2
 def parseE : Nat → List String → Option (TExpr × List String)
   | 0, _ => none
   | _ + 1, "lit" :: k :: rest => (k.toInt?).map fun k => (.lit k, rest)
+  | _ + 1, "una" :: rest => some (.una, rest)
   | _ + 1, "p" :: q :: rest => (q.toNat?).map fun q => (.port q, rest)
   | fuel + 1, "not" :: rest => (parseE fuel rest).map fun (a, r) => (.not a, r)
   | fuel + 1, "avail" :: rest => (parseE fuel rest).map fun (a, r) => (.avail a, r)
@@ -187,6 +188,7 @@ def dstep (d : DState) : List String → DState × String
       | "cmp" => ext d (.evalCmp i)
       | "wb" => ext d (.writeBegin i)
       | "we" => ext d (.writeEnd i)
+      | "hook" => ext d (.hookDone i)
       | _ => (d, "bad-op")
     | none => (d, "bad-op")
   | ["settle", fuel] =>
